@@ -121,14 +121,13 @@ def run_kernel(eng, n, prefix):
 
 
 def make_filter(ns, xs, ys, inverted):
+    # the real constructor (incl. _check_data) on symbolic vertices
     cls = ns["PolygonFilter"]
-    pf = object.__new__(cls)
-    pf._points = SMat([[a, b] for a, b in zip(xs, ys)])
-    pf.inverted = inverted
-    pf.axes = ("area_um", "deform")
-    pf.name = "p"
-    pf.unique_id = 0
-    return pf
+    cls.instances = []
+    cls._instance_counter = 0
+    return cls(axes=("area_um", "deform"),
+               points=SMat([[a, b] for a, b in zip(xs, ys)]),
+               inverted=inverted, name="p", unique_id=0)
 
 
 def points_in_poly_model(kns):
@@ -245,7 +244,11 @@ def run_text(eng, p):
         pass
     pathlib_shim.Path = Path
 
-    class NP:
+    class _NPMeta(type):
+        def __getattr__(cls, name):      # anything else: concrete data
+            return getattr(np, name)
+
+    class NP(metaclass=_NPMeta):
         """the numpy calls that locate the section headers / parse points"""
         float64 = np.float64
 
